@@ -15,8 +15,9 @@ type Value interface{}
 
 // StrV is a Go string: concrete (Term==nil) or symbolic (Term of sort Str).
 type StrV struct {
-	S    string
-	Term *Term
+	S      string
+	Term   *Term
+	Struct *Term // structured form of a concrete string built by a formatter (see netmodel.go)
 }
 
 type PathEl struct {
@@ -334,7 +335,10 @@ func (ex *Exec) strTerm(s *StrV) *Term {
 	if s.Term != nil {
 		return s.Term
 	}
-	return ex.strLit(s.S)
+	if s.Struct != nil {
+		return s.Struct
+	}
+	return ex.liftConcrete(s.S)
 }
 
 // merge returns ite(g, a, b) on values.
